@@ -5,7 +5,11 @@ func init() {
 		// the functions Model/Toml.lean transcribes by hand
 		o.pins("encoding/toml", "NewDecoder", "Decoder.Decode", "Decoder.nextRootNode", "Decoder.decodeField",
 			"Decoder.findArray", "Decoder.findArrayPrefix", "Decoder.decodeKey", "Decoder.inlineFields",
-			"quoteLabelIfNeeded", "Decoder.label", "Decoder.decodeExpr", "NewEncoder", "Encoder.Encode")
+			"quoteLabelIfNeeded", "Decoder.label", "Decoder.decodeExpr", "NewEncoder", "Encoder.Encode", "checkNoNull")
 		o.pins("cue/ast", "StringLabelNeedsQuoting")
+		// repaired defects of this property (known-findings.d/C12.txt, fixed: lines): the code of the
+		// repairs is pinned so that touching it triggers the failing-input search
+		o.pins("cue", "Value.Int64")
+		o.pins("cmd/cue/cmd", "buildPlan.placeOrphans")
 	}
 }
